@@ -17,6 +17,48 @@ def sh(cmd, cwd=None, timeout=3600):
     p = subprocess.run(cmd, cwd=cwd, env=ENV, stdout=subprocess.PIPE, stderr=subprocess.STDOUT, text=True, timeout=timeout)
     return p.returncode, p.stdout
 
+import re
+BASE = None
+def stable_in(pkgdir):
+    """stable baseline tests of the package at pkgdir (repo-relative)"""
+    global BASE
+    if BASE is None:
+        BASE = json.load(open("/root/.vp/BASELINE.json"))["stable_pass"]
+    pref = "github.com/linuxboot/fiano/" + pkgdir.strip("./") + "::"
+    return {t for t in BASE if t.startswith(pref)}
+
+def passing(pkg, run=None):
+    cmd = ["go", "test", "-json", "-vet=off", "-count=1", pkg]
+    if run:
+        cmd[5:5] = ["-run", run]
+    rc, out = sh(cmd, cwd=REPO)
+    ok, bad = set(), set()
+    for l in out.split("\n"):
+        if l.startswith("{"):
+            try:
+                e = json.loads(l)
+            except Exception:
+                continue
+            if e.get("Test"):
+                if e.get("Action") == "pass":
+                    ok.add("%s::%s" % (e["Package"], e["Test"]))
+                elif e.get("Action") == "fail":
+                    bad.add("%s::%s" % (e["Package"], e["Test"]))
+    built = "[build failed]" not in out and "[setup failed]" not in out
+    return ok, bad, built
+
+def demo_names(path):
+    return sorted(set(re.findall(r"^func (Test\w+)\(", open(path).read(), flags=re.M)))
+
+def run_demo(demo_src, dst, pkg):
+    shutil.copyfile(demo_src, dst)
+    try:
+        names = demo_names(demo_src)
+        ok, bad, built = passing(pkg, "^(" + "|".join(names) + ")$")
+        return ("fails" if (bad or not built) else "passes"), names
+    finally:
+        os.remove(dst)
+
 def clean():
     rc, out = sh(["git", "status", "--porcelain"], cwd=REPO)
     return all(l.strip() == "" or l.strip().endswith("integration/roms/OVMF.rom") for l in out.split("\n"))
@@ -44,12 +86,12 @@ def main():
             if verify and meta.get("demo_path"):
                 demo_src = os.path.join(d, meta.get("demo_file", "demo_test.go"))
                 dst = os.path.join(REPO, meta["demo_path"])
-                pkg = "./" + os.path.dirname(meta["demo_path"])
-                rc_t, o_t = sh(["go", "test", "-vet=off", "-count=1", pkg], cwd=REPO)
-                shutil.copyfile(demo_src, dst)
-                rc_d, o_d = sh(["go", "test", "-vet=off", "-count=1", pkg], cwd=REPO)
-                os.remove(dst)
-                demo_res = "pkg-tests-with-patch=%s demo-with-patch=%s" % ("pass" if rc_t == 0 else "FAIL", "fails" if rc_d != 0 else "PASSES(!)")
+                pkgdir = os.path.dirname(meta["demo_path"])
+                pkg = "./" + pkgdir
+                ok, bad, built = passing(pkg)
+                lost = stable_in(pkgdir) - ok
+                r_with, names = run_demo(demo_src, dst, pkg)
+                demo_res = "builds=%s stable-tests-lost-with-patch=%d demo-with-patch=%s" % (built, len(lost), r_with)
             t0 = time.time()
             rc_c, o_c = sh([os.path.join(ROOT, "check"), prop, "--tier", tier], cwd=ROOT)
             viol = [l for l in o_c.split("\n") if l.startswith("VIOLATION")]
@@ -62,10 +104,8 @@ def main():
         if verify and meta.get("demo_path"):
             demo_src = os.path.join(d, meta.get("demo_file", "demo_test.go"))
             dst = os.path.join(REPO, meta["demo_path"])
-            shutil.copyfile(demo_src, dst)
-            rc_d, o_d = sh(["go", "test", "-vet=off", "-count=1", "./" + os.path.dirname(meta["demo_path"])], cwd=REPO)
-            os.remove(dst)
-            rows[-1] = rows[-1][:4] + (rows[-1][4] + " demo-without-patch=%s" % ("passes" if rc_d == 0 else "FAILS(!)"),)
+            r_without, _ = run_demo(demo_src, dst, "./" + os.path.dirname(meta["demo_path"]))
+            rows[-1] = rows[-1][:4] + (rows[-1][4] + " demo-without-patch=%s" % r_without,)
         if not clean():
             print("WARNING: /repo not clean after", sid)
     with open(os.path.join(ROOT, "seeded", "RESULTS.md"), "a") as f:
